@@ -4,6 +4,8 @@ import HotstuffModel.Driver.Unit
 import HotstuffModel.Driver.Codec
 import HotstuffModel.Driver.Store
 import HotstuffModel.Driver.QuorumWaiter
+import HotstuffModel.Driver.ReliableSender
+import HotstuffModel.Driver.BatchMaker
 import HotstuffModel.Model.Committee
 /-
 Model driver: one request per line on stdin (an s-expression), one answer line on stdout.
@@ -30,6 +32,8 @@ structure DState where
   agg : Option AggDriver := none
   store : StoreState := {}
   qw : QWState := {}
+  rs : RSState := {}
+  bm : BMState := {}
 
 def dispatch (st : DState) (e : Sexp) : DState × Sexp :=
   match handlePure e with
@@ -43,6 +47,12 @@ def dispatch (st : DState) (e : Sexp) : DState × Sexp :=
   | none =>
   match stepQW st.qw e with
   | some (s', r) => ({ st with qw := s' }, r)
+  | none =>
+  match stepBM st.bm e with
+  | some (s', r) => ({ st with bm := s' }, r)
+  | none =>
+  match stepRS st.rs e with
+  | some (s', r) => ({ st with rs := s' }, r)
   | none =>
   match handleUnit e with
   | some r => (st, r)
